@@ -10,7 +10,8 @@ class Ctx:
 class Seq:
     """K1: sequential differential of suite `suite` (real code vs Lean model) + spec-vs-real (F)."""
     kind = "K1"
-    def __init__(self, suite, quick, thorough, proj_model=ident, proj_spec=ident, label=None, signature=None):
+    def __init__(self, suite, quick, thorough, proj_model=ident, proj_spec=ident, label=None, signature=None, crash_is_violation=False):
+        self.crash_is_violation = crash_is_violation
         self.suite, self.quick, self.thorough = suite, quick, thorough
         self.pm, self.ps = proj_model, proj_spec
         self.name = label or suite
@@ -33,7 +34,17 @@ class Seq:
         runs.append(("gen", dict(seed=ctx.seed, ncases=n)))
         for label, kw in runs:
             sub = os.path.join(wd, label.replace(":", "_").replace("/", "_"))
-            r = run_seq(self.suite, kw.get("seed", 0), kw.get("ncases", 0), sub, self.pm, self.ps, replay=kw.get("replay"), seqdiff=seqdiff)
+            try:
+                r = run_seq(self.suite, kw.get("seed", 0), kw.get("ncases", 0), sub, self.pm, self.ps, replay=kw.get("replay"), seqdiff=seqdiff)
+            except HarnessCrash as hc:
+                # the real code took the harness process down: localise and shrink the crashing case
+                loc = localize_crash(self.suite, kw.get("seed", 0), kw.get("ncases", 0), os.path.join(wd, "crash"), seqdiff, replay=kw.get("replay"))
+                item = {"component": self.name, "suite": self.suite, "kind": "spec-violation" if self.crash_is_violation else "correspondence",
+                        "source": label, "seed": ctx.seed, "what": "the harness process died while running the real code (panic on a library goroutine / fatal error); the model does not crash on this case",
+                        "case": loc["header"] if loc else "(not localised)", "ops": loc["ops"] if loc else [], "first_bad_op": (len(loc["ops"]) - 1) if loc else None,
+                        "real": ["process-crash"] * (len(loc["ops"]) if loc else 0), "crash_output": (loc["output"] if loc else hc.output[-2500:]), "signature": None}
+                out["f_bad" if self.crash_is_violation else "k_bad"].append(item)
+                continue
             out["evaluations"] += r.cases; out["ops"] += r.ops
             if label == "gen":
                 out["distinct_nontrivial"] += r.distinct_nontrivial
@@ -68,7 +79,11 @@ class Seq:
         def print(*a):   # known-finding replays must not pollute stdout
             __builtins__["print"](*a, file=sys.stderr if quiet else sys.stdout) if isinstance(__builtins__, dict) else __import__("builtins").print(*a, file=sys.stderr if quiet else sys.stdout)
         seqdiff = go_build("seqdiff")
-        k, f, real, ms = eval_case(self.suite, item["case"], item["ops"], self.pm, self.ps, seqdiff, os.path.join(ctx.workdir, "replay"))
+        try:
+            k, f, real, ms = eval_case(self.suite, item["case"], item["ops"], self.pm, self.ps, seqdiff, os.path.join(ctx.workdir, "replay"))
+        except HarnessCrash as hc:
+            print("the harness process still dies on this case:", hc.output[-800:])
+            return {"k": 0, "f": 0 if self.crash_is_violation else None}
         print("case", item["case"])
         for i, op in enumerate(item["ops"]):
             mark = " <== differs" if i in (k, f) else ""
